@@ -42,6 +42,7 @@ pub fn replay_file(path: &str) -> i32 {
                 .expect("re-exec");
             st.code().unwrap_or(2)
         }
+        Err(e) if e.starts_with("no replay handler") || e.starts_with("re-run") => fallback(&doc),
         Err(e) => {
             eprintln!("cannot replay: {e}");
             2
@@ -85,5 +86,45 @@ pub fn replay_case(prop: &str, case: &Value) -> Result<u64, String> {
             Ok(run.violations_seen())
         }
         _ => crate::checks::replay(prop, case),
+    }
+}
+
+/// Case kinds without a dedicated re-execution: run the property's check again (same tier and
+/// seed) with its output redirected to a scratch directory, and report whether a violation with
+/// the recorded key shows up again.
+fn fallback(doc: &Value) -> i32 {
+    let prop = doc["property"].as_str().unwrap_or("").to_string();
+    let key = doc["key"].as_str().unwrap_or("").to_string();
+    let tier = if doc["tier"] == "thorough" { Tier::Thorough } else { Tier::Quick };
+    let seed = doc["seed"].as_u64().unwrap_or(0);
+    let scratch = std::env::temp_dir().join(format!("wfv-replay-{}", std::process::id()));
+    let _ = std::fs::create_dir_all(&scratch);
+    // known findings must not hide the case being replayed: the scratch directory has none
+    unsafe {
+        std::env::set_var("WFV_VERIF_DIR", &scratch);
+        std::env::set_var("WFV_WANT_KEY", &key);
+        std::env::set_var("WFV_QUIET", "1");
+    }
+    eprintln!("(no dedicated replay for this case kind: re-running check {prop} ({}) and looking for the same violation key)", tier.name());
+    let _ = crate::checks::run(&prop, tier, seed);
+    let mut found = false;
+    if let Ok(rd) = std::fs::read_dir(scratch.join("replays").join(&prop)) {
+        for e in rd.flatten() {
+            if let Ok(t) = std::fs::read_to_string(e.path()) {
+                if let Ok(v) = serde_json::from_str::<Value>(&t) {
+                    if v["key"].as_str() == Some(key.as_str()) {
+                        found = true;
+                    }
+                }
+            }
+        }
+    }
+    let _ = std::fs::remove_dir_all(&scratch);
+    if found {
+        println!("REPRODUCED property={prop} key={key}");
+        1
+    } else {
+        println!("NOT-REPRODUCED property={prop}: no violation with key {key:?} on the current tree");
+        0
     }
 }
